@@ -55,6 +55,9 @@ def opOf (j : Json) : Except String Op := do
     | "addCleanup" => pure (.foreign (.addCleanup (← (a[2]!).getNat?)))
     | "rmCleanup" => pure (.foreign (.rmCleanup (← (a[2]!).getNat?)))
     | "other" => pure (.foreign .other)
+    | "clearAst" => pure (.foreign .clearAst)
+    | "dropPfAst" => pure (.foreign .dropPfAst)
+    | "dropPfCleanup" => pure (.foreign .dropPfCleanup)
     | s => throw s!"foreign {s}"
   | s => throw s!"op {s}"
 
